@@ -329,14 +329,17 @@ def _analyze(nm):
         return _ANALYSIS[nm]
     kind, ps, fn = _Q[nm]
     bs = [fresh('bv', _pool_sort(p)) for p in ps]
+    keep = list(LAZY_FACTS)
     body = fn(*bs)
+    pat_terms = _PATS[nm](*bs) if nm in _PATS else None
+    LAZY_FACTS[:] = keep      # facts about the analysis-only bound constants are of no use
     ids = {b.get_id(): n for n, b in enumerate(bs)}
     memo = {}
     pats = []
     explicit = None
     if nm in _PATS:
-        explicit = {t.get_id() for t in _PATS[nm](*bs)}
-    for e in _subterms(z3.And(body, *[t == t for t in _PATS[nm](*bs)]) if nm in _PATS else body):
+        explicit = {t.get_id() for t in pat_terms}
+    for e in _subterms(z3.And(body, *[t == t for t in pat_terms]) if nm in _PATS else body):
         if not z3.is_app(e) or e.num_args() == 0:
             continue
         k = e.decl().kind()
@@ -430,152 +433,285 @@ def _trigger_candidates(nm, index):
 
 
 MAX_INST = 600
-MAX_GEN = 3
+MAX_GEN = 4
 _USED_DEBUG = {}
 MAX_TOTAL = 6000
 
 
 def ground(hyps, goal, extra_terms=(), rounds=10, unfold_depth=3, stats=None, triggers=True):
-    """-> list of quantifier-free z3 assertions equisatisfiable-or-weaker than hyps /\\ not goal"""
-    phi = z3.And(*hyps, z3.Not(goal)) if hyps else z3.Not(goal)
-    skolems = []
-    ninst = 0
-    used = {}
-    global _USED_DEBUG
-    _USED_DEBUG = used
-    del LAZY_FACTS[:]
+    """-> list of quantifier-free z3 assertions, equisatisfiable-or-weaker than hyps /\\ not goal.
 
-    def skolemise(phi):
-        """exact eliminations, repeated until none is left"""
-        while True:
-            ph = _placeholders(phi)
-            subs = []
-            for nm, pol in ph.items():
-                kind, ps, fn = _Q[nm]
-                if pol == 0:
-                    raise GroundingError('quantifier %s occurs in both polarities' % nm)
-                if (kind == 'FA' and pol < 0) or (kind == 'EX' and pol > 0):
-                    sks = [fresh('sk', _pool_sort(p)) for p in ps]
-                    skolems.extend(sks)
-                    subs.append((z3.Bool(nm), fn(*sks)))
-            if not subs:
-                return phi, ph
-            phi = z3.substitute(phi, *subs)
-            if LAZY_FACTS:
-                phi = z3.And(phi, *LAZY_FACTS)
-                del LAZY_FACTS[:]
-
-    done = set()          # unfolded applications
-    gen = {}              # app id -> unfolding generation (0 = occurs in the query itself)
-    paired = set()
-    apps_by_fun = {}
-
-    def rec_step(phi, depth_limit):
-        """definitions of recurrence functions at (new) occurrences + congruence instances for pairs"""
-        new = []
-        for e in list(_subterms(phi)):
-            if z3.is_app(e) and e.decl().kind() == z3.Z3_OP_UNINTERPRETED and e.num_args() > 0:
-                rf = RecFun.registry.get(e.decl().name())
-                if rf is None or e.get_id() in done:
-                    continue
-                g = gen.get(e.get_id(), 0)
-                if g >= depth_limit:
-                    continue
-                done.add(e.get_id())
-                facts = rf.unfold(e)
-                for f in facts:
-                    for e2 in _subterms(f):
-                        if z3.is_app(e2) and e2.decl().kind() == z3.Z3_OP_UNINTERPRETED and e2.num_args() > 0 \
-                                and e2.decl().name() in RecFun.registry and e2.get_id() not in gen and e2.get_id() != e.get_id():
-                            gen[e2.get_id()] = g + 1
-                gen.setdefault(e.get_id(), g)
-                new.extend(facts)
-                apps_by_fun.setdefault(rf.name, []).append(e)
-        # congruence: same function, same non-array arguments, different arrays
-        for nm, apps in apps_by_fun.items():
-            rf = RecFun.registry[nm]
-            if len(paired) > 80:
-                break
-            for i in range(len(apps)):
-                for j in range(i + 1, len(apps)):
-                    a1, a2 = apps[i], apps[j]
-                    key = (a1.get_id(), a2.get_id())
-                    if key in paired:
-                        continue
-                    inst = rf.congruence(a1, a2)
-                    if inst is not None and len(paired) <= 80:
-                        paired.add(key)
-                        new.append(inst)
-        if new:
-            phi = z3.And(phi, *new)
-        return phi, bool(new)
-
-    term_gen = {}
-
-    def stamp(phi, g):
-        for e in _subterms(phi):
-            term_gen.setdefault(e.get_id(), g)
-
-    for rnd in range(rounds):
-        phi, grew = rec_step(phi, unfold_depth)
-        phi, ph = skolemise(phi)
-        stamp(phi, rnd)
-        if not ph and not grew:
+    Incremental: the assertion list only grows; every assertion is traversed once.  A placeholder P stays
+    in the formula as a free Boolean and is constrained by guarded instances:
+        P weak-positive  (FA at +):   P  ==> body(t)        for candidate terms t
+        P weak-negative  (EX at -):   body(t) ==> P
+        P exact-negative (FA at -):   P \\/ not body(sk)     (fresh sk)
+        P exact-positive (EX at +):   P ==> body(sk)
+    which is equisatisfiable with substituting the (partial) expansion for P, because each rule only
+    speaks about the polarity in which P occurs."""
+    G = _Grounder(extra_terms, unfold_depth, triggers)
+    G.add([h for h in hyps] + [z3.Not(goal)], 0)
+    for rnd in range(1, rounds + 1):
+        if not G.step(rnd):
             break
-        # weakening instantiation over the current pool; the placeholder stays in place so that terms
-        # appearing later (nested skolems) are instantiated in a later round
-        pools = _pools(phi, skolems, extra_terms)
-        index = _index_ground(phi) if triggers else None
-        progress = grew
-        subs = []
-        for nm, pol in ph.items():
-            kind, ps, fn = _Q[nm]
-            cands = [_pool_for(p, pools) for p in ps]
-            if triggers:
-                tc = _trigger_candidates(nm, index)
-                cands = [c if t is None else t for c, t in zip(cands, tc)]
-                # matching-loop guard: terms that only exist because of >= MAX_GEN earlier instantiation rounds
-                cands = [[t for t in c if term_gen.get(t.get_id(), 0) < MAX_GEN] for c in cands]
-            if ninst > MAX_TOTAL:
-                raise GroundingError('more than %d quantifier instances' % MAX_TOTAL)
-            seen = used.setdefault(nm, set())
-            insts = []
-            for ts in itertools.product(*cands):
-                key = tuple(t.get_id() for t in ts)
-                if key in seen:
-                    continue
-                if len(seen) >= MAX_INST:
-                    break
-                seen.add(key)
-                insts.append(fn(*ts))
-            if insts:
-                progress = True
-                ninst += len(insts)
-                if kind == 'FA':
-                    subs.append((z3.Bool(nm), z3.And(z3.Bool(nm), *insts)))
-                else:
-                    subs.append((z3.Bool(nm), z3.Or(z3.Bool(nm), *insts)))
-        if not progress:
-            break
-        if subs:
-            phi = z3.substitute(phi, *subs)
-        if LAZY_FACTS:
-            phi = z3.And(phi, *LAZY_FACTS)
-            del LAZY_FACTS[:]
-    phi, _g = rec_step(phi, unfold_depth)
-    phi, ph = skolemise(phi)
-    # drop what is left: FA at + -> True, EX at - -> False (weakening)
-    subs = []
-    for nm, pol in ph.items():
-        kind, ps, fn = _Q[nm]
-        subs.append((z3.Bool(nm), z3.BoolVal(kind == 'FA')))
-    if subs:
-        phi = z3.substitute(phi, *subs)
-    out = [phi]
-    out.extend(str_axioms())
+    G.step_exact(rounds + 1)
     if stats is not None:
-        stats['instances'] = ninst
-        stats['skolems'] = len(skolems)
-        stats['unfoldings'] = len(done)
-        stats['congruences'] = len(paired)
-    return out
+        stats['instances'] = G.ninst
+        stats['skolems'] = len(G.skolems)
+        stats['unfoldings'] = len(G.done)
+        stats['congruences'] = len(G.paired)
+        stats['assertions'] = len(G.out)
+    global _USED_DEBUG
+    _USED_DEBUG = G.used
+    return G.out + str_axioms()
+
+
+class _Grounder:
+    def __init__(self, extra_terms, unfold_depth, triggers):
+        self.out = []
+        self.seen = set()            # ids of visited subterms
+        self.gen = {}                # term id -> round in which it first appeared
+        self.sel = {}                # array-base id -> [select/store terms]
+        self.uf = {}                 # decl name -> [applications]
+        self.pool = dict(idx={}, int={}, ref={}, str={}, real={}, bysort={})
+        self.ph = {}                 # placeholder name -> set of polarities {+1,-1}
+        self.exact_done = set()      # (name, polarity) already skolemised
+        self.used = {}
+        self.skolems = []
+        self.ninst = 0
+        self.done = set()
+        self.recgen = {}
+        self.recapps = []            # not yet unfolded applications of recurrence functions
+        self.apps_by_fun = {}
+        self.paired = set()
+        self.unfold_depth = unfold_depth
+        self.triggers = triggers
+        for t in extra_terms:
+            if t.sort() == z3.IntSort():
+                self.pool['idx'][t.get_id()] = t
+        del LAZY_FACTS[:]
+
+    # -- registration of new assertions ---------------------------------------------------------
+    def add(self, fs, rnd, skip_guard=None):
+        for f in fs:
+            self.out.append(f)
+            self._polarity(f, 1)
+            self._index(f, rnd)
+
+    def _polarity(self, e, pol):
+        """register placeholder occurrences along the boolean skeleton"""
+        stack = [(e, pol)]
+        seen = set()
+        while stack:
+            e, pol = stack.pop()
+            key = (e.get_id(), pol)
+            if key in seen:
+                continue
+            seen.add(key)
+            if not z3.is_bool(e):
+                continue
+            if not z3.is_app(e):
+                continue
+            d = e.decl()
+            k = d.kind()
+            if k == z3.Z3_OP_UNINTERPRETED:
+                if e.num_args() == 0:
+                    nm = d.name()
+                    if nm in _Q:
+                        s = self.ph.setdefault(nm, set())
+                        if pol == 0:
+                            s.update((1, -1))
+                        else:
+                            s.add(pol)
+                continue
+            ch = e.children()
+            if k == z3.Z3_OP_AND or k == z3.Z3_OP_OR:
+                for c in ch:
+                    stack.append((c, pol))
+            elif k == z3.Z3_OP_NOT:
+                stack.append((ch[0], -pol))
+            elif k == z3.Z3_OP_IMPLIES:
+                stack.append((ch[0], -pol))
+                stack.append((ch[1], pol))
+            elif k == z3.Z3_OP_ITE:
+                stack.append((ch[0], 0))
+                stack.append((ch[1], pol))
+                stack.append((ch[2], pol))
+            else:
+                for c in ch:
+                    if z3.is_bool(c):
+                        stack.append((c, 0))
+
+    def _index(self, f, rnd):
+        stack = [f]
+        seen = self.seen
+        pool = self.pool
+        while stack:
+            e = stack.pop()
+            i = e.get_id()
+            if i in seen:
+                continue
+            seen.add(i)
+            self.gen[i] = rnd
+            if not z3.is_app(e):
+                continue
+            n = e.num_args()
+            d = e.decl()
+            k = d.kind()
+            s = e.sort()
+            if n:
+                ch = e.children()
+                stack.extend(ch)
+                if k == z3.Z3_OP_SELECT or k == z3.Z3_OP_STORE:
+                    for b in _array_bases(ch[0]):
+                        self.sel.setdefault(b, []).append(e)
+                    ix = ch[1]
+                    isrt = ix.sort()
+                    if isrt == z3.IntSort():
+                        pool['idx'][ix.get_id()] = ix
+                    elif isrt == z3.RealSort():
+                        pool['real'][ix.get_id()] = ix
+                    elif isrt != RefS and isrt != StrS:
+                        pool['bysort'].setdefault(isrt.name(), {})[ix.get_id()] = ix
+                elif k == z3.Z3_OP_UNINTERPRETED:
+                    nm = d.name()
+                    self.uf.setdefault(nm, []).append(e)
+                    if nm in RecFun.registry:
+                        self.recapps.append(e)
+            if s == RefS:
+                pool['ref'][i] = e
+            elif s == StrS:
+                pool['str'][i] = e
+            elif n == 0 and k == z3.Z3_OP_UNINTERPRETED:
+                if s == z3.IntSort():
+                    pool['int'][i] = e
+                elif s == z3.RealSort():
+                    pool['real'][i] = e
+                elif not z3.is_bool(e):
+                    pool['bysort'].setdefault(s.name(), {})[i] = e
+
+    def _pool_for(self, p):
+        pool = self.pool
+        if isinstance(p, Ty):
+            s = p.sort()
+            if s == z3.IntSort():
+                return list(pool['int'].values()) + list(pool['idx'].values())
+            if s == RefS:
+                return list(pool['ref'].values())
+            if s == StrS:
+                return list(pool['str'].values())
+            if s == z3.RealSort():
+                return list(pool['real'].values())
+            return list(pool['bysort'].get(s.name(), {}).values())
+        if p == 'int':
+            return list(pool['int'].values()) + list(pool['idx'].values())
+        return list(pool[p].values())
+
+    # -- one round ---------------------------------------------------------------------------------
+    def step_exact(self, rnd):
+        new = []
+        for nm, pols in list(self.ph.items()):
+            kind, ps, fn = _Q[nm]
+            P = z3.Bool(nm)
+            for pol in list(pols):
+                exact = (kind == 'FA' and pol < 0) or (kind == 'EX' and pol > 0)
+                if not exact or (nm, pol) in self.exact_done:
+                    continue
+                self.exact_done.add((nm, pol))
+                sks = [fresh('sk', _pool_sort(p)) for p in ps]
+                self.skolems.extend(sks)
+                for sk in sks:
+                    if sk.sort() == z3.IntSort():
+                        self.pool['idx'][sk.get_id()] = sk
+                body = fn(*sks)
+                if kind == 'FA':
+                    new.append((z3.Or(P, z3.Not(body)), body, -1))
+                else:
+                    new.append((z3.Implies(P, body), body, 1))
+        return self._commit(new, rnd)
+
+    def _commit(self, new, rnd):
+        """new: (assertion, body, polarity of body inside the assertion)"""
+        for (f, body, pol) in new:
+            self.out.append(f)
+            self._polarity(body, pol)
+            self._index(f, rnd)
+        if LAZY_FACTS:
+            facts = list(LAZY_FACTS)
+            del LAZY_FACTS[:]
+            self.add(facts, rnd)
+        return bool(new)
+
+    def step(self, rnd):
+        progress = self.step_rec(rnd)
+        while self.step_exact(rnd):
+            progress = True
+        new = []
+        index = (self.sel, self.uf)
+        for nm, pols in list(self.ph.items()):
+            kind, ps, fn = _Q[nm]
+            P = z3.Bool(nm)
+            for pol in list(pols):
+                weak = (kind == 'FA' and pol > 0) or (kind == 'EX' and pol < 0)
+                if not weak:
+                    continue
+                cands = [self._pool_for(p) for p in ps]
+                if self.triggers:
+                    tc = _trigger_candidates(nm, index)
+                    cands = [c if t is None else t for c, t in zip(cands, tc)]
+                    cands = [[t for t in c if self.gen.get(t.get_id(), 0) < MAX_GEN] for c in cands]
+                if self.ninst > MAX_TOTAL:
+                    raise GroundingError('more than %d quantifier instances' % MAX_TOTAL)
+                seen = self.used.setdefault((nm, pol), set())
+                for ts in itertools.product(*cands):
+                    key = tuple(t.get_id() for t in ts)
+                    if key in seen:
+                        continue
+                    if len(seen) >= MAX_INST:
+                        break
+                    seen.add(key)
+                    body = fn(*ts)
+                    self.ninst += 1
+                    if kind == 'FA':
+                        new.append((z3.Implies(P, body), body, 1))
+                    else:
+                        new.append((z3.Implies(body, P), body, -1))
+        if self._commit(new, rnd):
+            progress = True
+        return progress
+
+    def step_rec(self, rnd):
+        """definitions of recurrence functions at new occurrences + congruence instances for pairs"""
+        new = []
+        apps, self.recapps = self.recapps, []
+        for e in apps:
+            rf = RecFun.registry.get(e.decl().name())
+            if rf is None or e.get_id() in self.done:
+                continue
+            g = self.recgen.get(e.get_id(), 0)
+            if g >= self.unfold_depth:
+                continue
+            self.done.add(e.get_id())
+            facts = rf.unfold(e)
+            for f in facts:
+                for e2 in _subterms(f):
+                    if z3.is_app(e2) and e2.num_args() > 0 and e2.decl().kind() == z3.Z3_OP_UNINTERPRETED \
+                            and e2.decl().name() in RecFun.registry and e2.get_id() not in self.recgen \
+                            and e2.get_id() != e.get_id():
+                        self.recgen[e2.get_id()] = g + 1
+            self.recgen.setdefault(e.get_id(), g)
+            for f in facts:
+                new.append((f, f, 1))
+            lst = self.apps_by_fun.setdefault(rf.name, [])
+            for a1 in lst:
+                if len(self.paired) > 80:
+                    break
+                key = (a1.get_id(), e.get_id())
+                if key in self.paired:
+                    continue
+                inst = rf.congruence(a1, e)
+                if inst is not None:
+                    self.paired.add(key)
+                    new.append((inst, inst, 1))
+            lst.append(e)
+        return self._commit(new, rnd)
